@@ -265,8 +265,10 @@ func (rn *runner) pump() {
 		select {
 		case st := <-rn.vx.StatusCh():
 			name := st.GetState().String()
-			hold := rn.sc.Hold && terminal(name)
+			hold := false
 			rn.rec.emit("Status", map[string]interface{}{"state": name}, func(v *view) {
+				// statusCh is FIFO: behind a held terminal status everything waits
+				hold = rn.sc.Hold && (terminal(name) || len(v.held) > 0)
 				v.nStatus[name]++
 				if name == "TASK_RUNNING" {
 					v.runningSeen = true
@@ -421,8 +423,23 @@ func (rn *runner) procHeld() {
 		}
 		return false
 	})
-	if ok {
-		rn.process(st)
+	if !ok {
+		return
+	}
+	rn.process(st)
+	for { // what queued up behind it, up to the next terminal status
+		var nx *mesos.TaskStatus
+		rn.rec.mu.Lock()
+		if len(rn.rec.v.held) > 0 && !terminal(rn.rec.v.held[0].GetState().String()) {
+			h := rn.rec.v.held[0]
+			nx = &h
+			rn.rec.v.held = rn.rec.v.held[1:]
+		}
+		rn.rec.mu.Unlock()
+		if nx == nil {
+			return
+		}
+		rn.process(*nx)
 	}
 }
 
